@@ -56,7 +56,9 @@ class TryCompute:
 
     def __exit__(self, exc_type, exc_value, exc_tb):
         self.depth -= 1
-        return exc_type is NotReadyError
+        # A cycle met during an early attempt is left to whoever finally needs
+        # the value: only there is it known which token to blame
+        return exc_type is NotReadyError or exc_type is DeferredCycle
 
 try_compute = TryCompute()
 
